@@ -1538,6 +1538,10 @@ impl Machine {
                 if interrupt_counter.0 == 0 {
                     break;
                 }
+                #[cfg(feature = "verif-hooks")]
+                if crate::machine::verif::instr_tick() {
+                    break;
+                }
                 match self.code[self.machine_st.p] {
                     Instruction::BreakFromDispatchLoop => {
                         break 'outer;
@@ -1611,6 +1615,10 @@ impl Machine {
             loop {
                 interrupt_counter += 1;
                 if interrupt_counter.0 == 0 {
+                    break;
+                }
+                #[cfg(feature = "verif-hooks")]
+                if crate::machine::verif::instr_tick() {
                     break;
                 }
 
